@@ -1772,6 +1772,7 @@ impl ContinuityStore {
 
         let mut tail_bytes = INITIAL_TAIL_BYTES;
         let mut scanned_sidecar = false;
+        let mut tail_complete = false;
         while tail_bytes <= MAX_TAIL_BYTES {
             match self
                 .stream_cache
@@ -1827,6 +1828,7 @@ impl ContinuityStore {
                     }
 
                     if tail.complete || by_key.len() >= MAX_KEYS {
+                        tail_complete = tail.complete;
                         break;
                     }
                 }
@@ -1840,7 +1842,9 @@ impl ContinuityStore {
             tail_bytes = (tail_bytes * 2).min(MAX_TAIL_BYTES);
         }
 
-        if !scanned_sidecar {
+        // Cursors older than the largest tail window are only in the full stream: the rows found so
+        // far are the newest per key, so replaying on top of them (first entry wins) completes them.
+        if !scanned_sidecar || (!tail_complete && by_key.len() < MAX_KEYS) {
             let events = self
                 .replay_events(thread_id)
                 .map_err(|err| format!("continuity replay failed: {err}"))?;
